@@ -115,12 +115,16 @@ def kernel_tree(draw, d_in, batch, depth=2, names=None, allow_ad=True, psd_only=
             # A sum of two bare LinearKernels is a sum of two low-rank root operators, which the dependency
             # (RootLinearOperator.__add__ -> add_low_rank) evaluates through an SVD that fails on rank-deficient data
             # (rows of zeros, duplicates).  Keep at most one bare linear summand; further ones become Poly1 (dense).
+            # (a ScaleKernel of a LinearKernel is still a root operator: outputscale * RootLinearOperator)
             seen = False
             for i, p_ in enumerate(parts):
-                if p_["k"] == "Linear":
+                holder, key, node = parts, i, p_
+                while node["k"] == "Scale":
+                    holder, key, node = node, "base", node["base"]
+                if node["k"] == "Linear":
                     if seen:
-                        parts[i] = {"k": "Poly1", "batch": batch, "ad": p_["ad"], "d": p_["d"], "ard": False,
-                                    "p": {"offset": draw(arr(batch + [1], pos(0.1, 3.0)))}}
+                        holder[key] = {"k": "Poly1", "batch": batch, "ad": node["ad"], "d": node["d"], "ard": False,
+                                       "p": {"offset": draw(arr(batch + [1], pos(0.1, 3.0)))}}
                     seen = True
         r = {"k": "Add" if kind == "add" else "Prod", "parts": parts, "batch": batch}
     return r
